@@ -293,6 +293,7 @@ func propC02(c *Check) {
 		rets := acceptReturns(f)
 		okk := len(rets) == 1 && Call("(*crypto.Key).VerifyWithChallenge", Param("publicKey"), Has(Param("sig")))(rets[0].(*ssa.Return).Results[0])
 		c.Require(okk, "shape", shortName(f)+"|delegates", "Key.Verify returns publicKey.VerifyWithChallenge(sig, x)", "verdict is no longer the challenge verification")
+		c.HashSealedAfterWrites(f, "the Schnorr challenge binds R, the public key and the message")
 		writes := findCalls(f, "iface:hash.Hash.Write")
 		hasSig, hasKey, hasMsg := false, false, false
 		for _, wc := range writes {
